@@ -100,4 +100,74 @@ theorem first_failure_skips (c : Ctx) (s : Step) (rest : List Step) (h : (runSte
     runScenario c (s :: rest) = (runStep c s).1 :: rest.map (fun _ => .skipped) := by
   simp only [runScenario]
 
+/-- untouched trace and open/closed state of the block -/
+def SameBlock (c c' : Ctx) : Prop := c'.trace = c.trace ∧ c'.monitoring = c.monitoring
+
+theorem SameBlock.trans {a b c : Ctx} (h1 : SameBlock a b) (h2 : SameBlock b c) : SameBlock a c :=
+  ⟨h2.1.trans h1.1, h2.2.trans h1.2⟩
+
+mutual
+theorem runAct_given (a : Act) (c : Ctx) : SameBlock c (runAct .given a c).1 := by
+  cases a with
+  | doNothing => simp only [runAct]; exact ⟨rfl, rfl⟩
+  | send n ps => simp only [runAct]; exact ⟨rfl, rfl⟩
+  | wait s => simp only [runAct]; exact ⟨rfl, rfl⟩
+  | repeat_ inner n => simp only [runAct]; exact runRepeat_given inner n c
+  | seq inner => simp only [runAct]; exact runSeq_given inner c
+  | unknownScenario => simp only [runAct]; exact ⟨rfl, rfl⟩
+theorem runRepeat_given (inner : Act) (n : Nat) (c : Ctx) : SameBlock c (runRepeat .given inner n c).1 := by
+  cases n with
+  | zero => simp only [runRepeat]; exact ⟨rfl, rfl⟩
+  | succ k =>
+    simp only [runRepeat]
+    have h1 := runAct_given inner c
+    obtain ⟨c1, b1, hx⟩ : ∃ c1 b1, runAct .given inner c = (c1, b1) := ⟨_, _, rfl⟩
+    rw [hx] at h1
+    simp only [hx]
+    cases b1 with
+    | true => exact h1
+    | false =>
+      have h2 : SameBlock c1 (afterStep .given c1).1 := given_is_unmonitored c1
+      obtain ⟨c2, b2, hy⟩ : ∃ c2 b2, afterStep .given c1 = (c2, b2) := ⟨_, _, rfl⟩
+      rw [hy] at h2
+      simp only [hy]
+      cases b2 with
+      | true => exact h1.trans h2
+      | false => exact (h1.trans h2).trans (runRepeat_given inner k c2)
+theorem runSeq_given (l : List Act) (c : Ctx) : SameBlock c (runSeq .given l c).1 := by
+  cases l with
+  | nil => simp only [runSeq]; exact ⟨rfl, rfl⟩
+  | cons a rest =>
+    simp only [runSeq]
+    have h1 := runAct_given a c
+    obtain ⟨c1, b1, hx⟩ : ∃ c1 b1, runAct .given a c = (c1, b1) := ⟨_, _, rfl⟩
+    rw [hx] at h1
+    simp only [hx]
+    cases b1 with
+    | true => exact h1
+    | false =>
+      have h2 : SameBlock c1 (afterStep .given c1).1 := given_is_unmonitored c1
+      obtain ⟨c2, b2, hy⟩ : ∃ c2 b2, afterStep .given c1 = (c2, b2) := ⟨_, _, rfl⟩
+      rw [hy] at h2
+      simp only [hy]
+      cases b2 with
+      | true => exact h1.trans h2
+      | false => exact (h1.trans h2).trans (runSeq_given rest c2)
+end
+
+/-- **A whole `given` step — also `I repeat …` and `I reproduce "scenario"` with all the steps they
+    replay — is unmonitored**: whatever the replayed steps were in their own scenario, under `Given`
+    they neither open a block of when-steps nor add to the monitored trace. -/
+theorem given_step_is_unmonitored (c : Ctx) (a : Act) :
+    (runStep c (.act .given a)).2.trace = c.trace ∧ (runStep c (.act .given a)).2.monitoring = c.monitoring := by
+  simp only [runStep]
+  have h1 := runAct_given a c
+  obtain ⟨c1, b1, hx⟩ : ∃ c1 b1, runAct .given a c = (c1, b1) := ⟨_, _, rfl⟩
+  rw [hx] at h1
+  simp only [hx]
+  have h2 : SameBlock c1 (afterStep .given c1).1 := given_is_unmonitored c1
+  obtain ⟨c2, b2, hy⟩ : ∃ c2 b2, afterStep .given c1 = (c2, b2) := ⟨_, _, rfl⟩
+  rw [hy] at h2
+  cases b1 <;> cases b2 <;> simp only [hy] <;> exact h1.trans h2
+
 end Sismic.C19
